@@ -354,7 +354,7 @@ where
         }
         Ok(None) => {}
         Err(e) => {
-            if src.seen_doc_end() {
+            if src.seen_doc_end() && e.is_trailing_garbage() {
                 // Trailing garbage after a proper document end marker is ignored.
             } else {
                 return Err(maybe_with_snippet(e, input, with_snippet, crop_radius));
@@ -466,7 +466,7 @@ fn from_str_with_options_and_path_recorder<T: DeserializeOwned>(
         }
         Ok(None) => {}
         Err(e) => {
-            if src.seen_doc_end() {
+            if src.seen_doc_end() && e.is_trailing_garbage() {
                 // ignore trailing garbage
             } else {
                 return Err(maybe_with_snippet(e, input, with_snippet, crop_radius));
@@ -775,7 +775,7 @@ where
         }
         Ok(None) => {}
         Err(e) => {
-            if src.seen_doc_end() {
+            if src.seen_doc_end() && e.is_trailing_garbage() {
                 // Trailing garbage after a proper document end marker is ignored.
             } else {
                 return Err(e);
@@ -1195,7 +1195,7 @@ where
         }
         Ok(None) => {}
         Err(e) => {
-            if src.seen_doc_end() {
+            if src.seen_doc_end() && e.is_trailing_garbage() {
                 // Trailing garbage after a proper document end marker is ignored.
             } else {
                 return Err(e);
@@ -1830,7 +1830,7 @@ pub fn from_reader_with_options<'a, R: std::io::Read + 'a, T: DeserializeOwned>(
         }
         Ok(None) => {}
         Err(e) => {
-            if src.seen_doc_end() {
+            if src.seen_doc_end() && e.is_trailing_garbage() {
                 // Trailing garbage after a proper document end marker is ignored.
             } else {
                 return Err(attach_snippet(e));
